@@ -184,8 +184,8 @@ def compare(ctx, label, arr, rows, opts, d_s, w, rests=False, scale=1, prefix=""
                 ctx.check(3)
                 rel, tot = r["metrical"]
                 got = (int(a["is_downbeat"]), int(a["rel_onset_div"]), int(a["tot_measure_div"]))
-                if got != (1 if rel == 0 else 0, rel * scale, tot * scale) and scale == 1:
-                    return bad("metrical_position", got, (1 if rel == 0 else 0, rel, tot))
+                if got != (1 if rel == 0 else 0, rel * scale, tot * scale):
+                    return bad("metrical_position", got, (1 if rel == 0 else 0, rel * scale, tot * scale))
         if "staff" in names:
             if r["staff"] is not None:
                 ctx.check()
@@ -348,6 +348,20 @@ def strip_some(rng, part):
             n.voice = None
 
 
+def zero_based_voice(rng, part):
+    """hostile: one voice of the part carries the number 0 (voices counted from 0, as note_array_to_score produces from a
+    0-based voice column); the array has to state 0 for it, not the number it invents for notes without voice"""
+    import partitura.score as S
+    objs = timemaps.objects_of(part, S.GenericNote, exact=False)
+    voices = sorted({n.voice for n in objs if isinstance(n.voice, int) and n.voice > 0})
+    if not voices:
+        return
+    v = rng.choice(voices)
+    for n in objs:
+        if n.voice == v:
+            n.voice = 0
+
+
 def run_item(ctx, item):
     import partitura.score as S
     import partitura.utils.music as M
@@ -358,6 +372,8 @@ def run_item(ctx, item):
         part, meta = gen_score.make_part(rng, "P1", profile="full")
         if rng.random() < 0.3:
             strip_some(rng, part)
+        if rng.random() < 0.2:
+            zero_based_voice(rng, part)
         single_div = len(part.quarter_durations()) == 1
         for rep in range(3):
             opts = {o: rng.random() < 0.5 for o in OPTS}
